@@ -3,24 +3,23 @@
 # Confirms a sub-agent's seeded change (tests pass with it, demo fails with it and passes without), stores it under
 # /verif/seeded/<ID>/, runs the quick check(s) against it in /repo and reverts. Prints a summary.
 ID="$1"; shift; CHECKS="${@:-$ID}"
-WT=/tmp/seed-$ID; OUT=/tmp/seed-$ID-out; DST=/verif/seeded/$ID
+TAG="${SEEDTAG:-seed}"; SUF="${SEEDSUF:-}"; WT=/tmp/$TAG-$ID; OUT=/tmp/$TAG-$ID-out; DST=/verif/seeded/$ID$SUF
 [ -f $OUT/patch.diff ] || { echo "no patch for $ID"; exit 2; }
-git -C /repo diff --quiet || { echo "/repo working tree is dirty"; exit 2; }
 git -C /repo apply --check $OUT/patch.diff || { echo "PATCH DOES NOT APPLY to /repo HEAD"; exit 2; }
 # own scratch worktree at current HEAD with the patch
-SW=/tmp/seedcheck-$ID; rm -rf $SW; git -C /repo worktree add -q --detach $SW HEAD && git -C $SW apply $OUT/patch.diff
+SW=/tmp/seedcheck-$ID$SUF; rm -rf $SW; git -C /repo worktree add -q --detach $SW HEAD && git -C $SW apply $OUT/patch.diff
 T=$( cd $SW && env -u SPP_VERIF_TRACE PYTHONPATH=$SW /venv/bin/python -m pytest -q -p no:cacheprovider -x 2>&1 | tail -1 )
 D1=$( cd /tmp && PYTHONPATH=$SW timeout 300 /venv/bin/python $OUT/demo.py 2>&1 | tail -1; echo "exit=${PIPESTATUS[0]}" )
 D0=$( cd /tmp && PYTHONPATH=/repo timeout 300 /venv/bin/python $OUT/demo.py 2>&1 | tail -1; echo "exit=${PIPESTATUS[0]}" )
-git -C /repo worktree remove --force $SW
-{ echo "confirmed on $(date -u +%FT%TZ) against /repo $(git -C /repo rev-parse --short HEAD) in scratch worktree $SW (removed afterwards)"; echo "test suite with the change: $T"; echo "demo with the change: $D1"; echo "demo without the change (PYTHONPATH=/repo): $D0"; } > /tmp/seed-eval-$ID.txt
+{ echo "confirmed on $(date -u +%FT%TZ) against /repo $(git -C /repo rev-parse --short HEAD) in scratch worktree $SW (removed afterwards)"; echo "test suite with the change: $T"; echo "demo with the change: $D1"; echo "demo without the change (PYTHONPATH=/repo): $D0"; } > /tmp/seed-eval-$ID$SUF.txt
 echo "[$ID] tests(with change): $T"; echo "[$ID] demo with change: $D1" | tr '\n' ' '; echo; echo "[$ID] demo without: $D0" | tr '\n' ' '; echo
 mkdir -p $DST && cp $OUT/patch.diff $OUT/demo.py $OUT/meta.json $DST/ 2>/dev/null
-git -C /repo apply $OUT/patch.diff
+# the checks import the library from SPP_REPO: run them against the scratch worktree that carries the change (/repo itself is not
+# touched, so background runs that use /repo are not disturbed)
 for c in $CHECKS; do
-  R=$( cd /verif && /venv/bin/python check.py $c --tier quick 2>&1 | grep -E "^VIOLATION|^check |MACHINERY|signature" | head -6 )
+  R=$( cd /verif && SPP_REPO=$SW /venv/bin/python check.py $c --tier quick 2>&1 | grep -E "^VIOLATION|^check |MACHINERY|signature" | head -6 )
   echo "[$ID] check $c:"; echo "$R"
-  { echo "quick check $c with the change applied to /repo:"; echo "$R"; } >> /tmp/seed-eval-$ID.txt
+  { echo "quick check $c with the change (SPP_REPO=<scratch worktree carrying the patch>):"; echo "$R"; } >> /tmp/seed-eval-$ID$SUF.txt
 done
-mv /tmp/seed-eval-$ID.txt $DST/evaluation.txt
-git -C /repo checkout -- . ; git -C /repo status --short | head -3
+mv /tmp/seed-eval-$ID$SUF.txt $DST/evaluation.txt
+git -C /repo worktree remove --force $SW; git -C /repo status --short | head -3
